@@ -50,6 +50,21 @@ CHECKS = {
  "C15": ("exhaustive enumeration of expression trees rendered to infix four ways, compiled by the real infix and prefix parsers",
          "All trees <=5 (6) nodes over one operator per precedence class incl. non-commutative ones, !, calls, if, lists and 7 atoms; all shapes <=7 (9) nodes over one atom; all 16 binary spellings <=4 (5): infix renderings with minimal / full / redundant parentheses and glued spacing compile to the same Dump and DumpTable as the prefix form and evaluate identically.",
          "The minimal-parentheses renderer encodes the statement's precedence table and left associativity; nested unary ! operands are parenthesised.", "4 C15"),
+ "C16": ("exhaustive enumeration of programs x single-entry cost maps x all pairs of maps differing in one entry; order laws checked on the parsed Dump trees of the real compiler",
+         "Every and/or/not/if/compare tree <=6 (7) nodes with distinct variables plus wide and/or nodes of 2..40 operands (flat and flattened): each variable/operator name and the class defaults priced at every rung of {-100,0,0.5,5,1e3,1e9}, alone and next to one other priced name, other optimisations off/on: Reordering only permutes and/or operand lists, equal-shape siblings keep source order, raising an entry never promotes a mentioning operand over a non-mentioning one, 1e9 puts mentioning operands last, bystanders keep their relative order.",
+         "Ladder of 6 cost values; NaN/infinite costs are judged for meaning under C02 only.", "4 C16"),
+ "C17": ("exhaustive enumeration of list pairs with padding families across the 100-element switch, on the real operators via Compile/Eval against a map-based set oracle",
+         "Every pair of lists <=3 over a 3-element universe for both element types, unpadded and padded (front/back/around/both) to totals {98,99,100,101,150} (thorough adds 50..1000) with either side longer, literal/variable forms, options on/off; every probe for `in` against literal, variable and pre-built set; typed-empty lists, the empty literal and every type mismatch; symmetry of overlap.",
+         "3-element universe + disjoint filler (operators only test elements for equality).", "4 C17"),
+ "C18": ("exhaustive enumeration of operator x operand tuples over an int64/bool boundary alphabet on the real operators via Compile/Eval against an independent algebra oracle",
+         "33 scalar operator names/aliases x counts 0..4 x every tuple over {min,min+1,-2,-1,0,1,2,max-1,max,true,false,\"a\",(1)} x literal/variable x options off/default: wrapping folds, zero divisors, order laws, n-ary eq, boolean folds, count and type errors, alias == named form. One open known finding (and/or short-circuit bypass) is matched by a narrow predicate.",
+         "Boundary alphabet of int64, not all values; errors compared by presence.", "4 C18"),
+ "C19": ("exhaustive enumeration of version strings / calendar stamps and of all their pairs, encodings computed by the real operators and compared with independent positional / days-from-civil arithmetic",
+         "Every version string of <=N components over {0,1,9,10,007,9998,9999} for N=1..4 and the default, three operator names, variable and literal forms: exact base-10000 value, every pair order-preserving, end-to-end comparisons, every rejection in every position; 11 years x 7 days x 3 times under default, day-first and RFC 3339 (+offset) layouts through all 8 date operators: exact Unix seconds, chronological order for every pair, impossible days/times and malformed texts rejected.",
+         "Component and calendar alphabets are boundary sets; layouts other than the four modelled ones are outside the oracle.", "4 C19"),
+ "C20": ("DFS over scripted random-source answers (every decision sequence of the generator up to a level / deviation bound) plus an exhaustive seed range, each result judged by reference evaluation and by the real engine",
+         "rand.New(scripted source): every decision sequence at level <=1, every sequence with <=3 (4) non-default answers at levels 2..4, every seed 0..4000 (100000) at levels 0..6, both result types x 8 option combinations (+GenVariables): the text parses, R1/Kleene evaluation does not fail and equals the reported result, the expression compiles and the engine returns the same value. Draw-count binding keeps the control-flow model in sync on every run. One open known finding (level-0 bare atoms do not compile).",
+         "Leaf-value draws use value classes; math/rand's Intn mapping is checked by the draw-count binding.", "4 C20"),
 }
 
 NOT_YET = {}
